@@ -425,6 +425,85 @@ func origin(v ssa.Value) ssa.Value {
 	return v
 }
 
+// staleGoCapture: v (read inside a closure) resolves through a captured variable whose cell is allocated
+// OUTSIDE the loop in which it is assigned, while the closure is started with `go`: the goroutine may observe
+// the value of a later iteration. Returns a description, or "".
+func (w *World) staleGoCapture(v ssa.Value) string {
+	for i := 0; i < 20; i++ {
+		v = stripConv(v)
+		switch x := v.(type) {
+		case *ssa.UnOp:
+			if x.Op != token.MUL {
+				return ""
+			}
+			if fv, ok := x.X.(*ssa.FreeVar); ok {
+				if msg := w.staleCell(fv); msg != "" {
+					return msg
+				}
+				if b := freeVarBinding(fv); b != nil {
+					if a, ok := b.(*ssa.Alloc); ok {
+						if s := singleStore(a); s != nil {
+							v = s
+							continue
+						}
+					}
+				}
+				return ""
+			}
+			if fa, ok := x.X.(*ssa.FieldAddr); ok {
+				v = fa.X
+				continue
+			}
+			if a, ok := x.X.(*ssa.Alloc); ok {
+				if s := singleStore(a); s != nil {
+					v = s
+					continue
+				}
+			}
+			return ""
+		case *ssa.FreeVar:
+			if msg := w.staleCell(x); msg != "" {
+				return msg
+			}
+			if b := freeVarBinding(x); b != nil {
+				v = b
+				continue
+			}
+			return ""
+		case *ssa.FieldAddr:
+			v = x.X
+		case *ssa.Extract:
+			return ""
+		default:
+			return ""
+		}
+	}
+	return ""
+}
+
+func (w *World) staleCell(fv *ssa.FreeVar) string {
+	fn := fv.Parent()
+	a, ok := freeVarBinding(fv).(*ssa.Alloc)
+	if !ok {
+		return ""
+	}
+	spawnedByGo := false
+	for _, s := range w.callSitesOf(fn) {
+		if _, isGo := s.(*ssa.Go); isGo {
+			spawnedByGo = true
+		}
+	}
+	if !spawnedByGo {
+		return ""
+	}
+	for _, r := range *a.Referrers() {
+		if st, ok := r.(*ssa.Store); ok && st.Addr == ssa.Value(a) && inLoop(st.Block()) && !inLoop(a.Block()) {
+			return "variable " + a.Comment + " is declared outside the loop that assigns it (" + w.At(st) + ") but is read by a goroutine started inside the loop"
+		}
+	}
+	return ""
+}
+
 // throughSoleCallSite: if v is a parameter of a function with exactly one call site in the package,
 // return the argument passed there (one level of interprocedural value identity for extracted helpers).
 func (w *World) throughSoleCallSite(v ssa.Value) (ssa.Value, ssa.CallInstruction) {
